@@ -50,8 +50,36 @@ def _tok(name):
 for _t in ("header", "footer", "feature", "feature_separator"):
     _tok(_t)
 contract("abs:JSONFormatter.close_stream", trusted=True, params={"self": "ref:JSONFormatter"}, pos_params=["self"], pure=True)
+from pyvc.contracts import ghost as _ghost15
+_ghost15("jsf_n", "int")        # finish_current_scenario() calls
+_ghost15("jsf_for", "val")      # self.current_scenario at the last such call
 contract("abs:JSONFormatter.finish_current_scenario", trusted=True, params={"self": "ref:JSONFormatter"}, pos_params=["self"],
-         modifies=["dicts", "lists"], doc="stores the scenario status in its element (fix 4fff01a; content: bounded)")
+         modifies=["dicts", "lists", "G_jsf_n", "G_jsf_for"],
+         ensures={"recorded": "G_jsf_n == old(G_jsf_n) + 1 and G_jsf_for == self.current_scenario"},
+         doc="stores the status of self.current_scenario in that scenario's element (fix 4fff01a; content: bounded); "
+             "ghost: for which scenario it was called")
+contract("abs:JSONFormatter.add_feature_element", trusted=True, params={"self": "ref:JSONFormatter"}, pos_params=["self", "element"],
+         modifies=["dicts", "lists"], result="dict", ensures={"same-element": "result is element"},
+         doc="appends the element to the current feature's element list (content: bounded)")
+contract("abs:JSONFormatter.step", trusted=True, params={"self": "ref:JSONFormatter"}, pos_params=["self", "step"],
+         modifies=["dicts", "lists", "self._step_index"], doc="adds a step entry to the current element (content: bounded)")
+contract("lib:six.text_type", trusted=True, pos_params=["x"], pure=True, result="str")
+shape("Background", name="any", keyword="any", location="any", steps="seq:ref:Step")
+for _fn, _arg, _cur in (("background", "background", "None"), ("scenario", "scenario", "scenario")):
+    contract(JS + "JSONFormatter.%s" % _fn, props=P,
+             params={"self": "ref:JSONFormatter", _arg: "ref:Background" if _fn == "background" else "ref:Scenario"},
+             self_classes=["JSONFormatter"],
+             callsites={"self.finish_current_scenario": "abs:JSONFormatter.finish_current_scenario",
+                        "self.add_feature_element": "abs:JSONFormatter.add_feature_element", "self.step": "abs:JSONFormatter.step",
+                        "six.text_type": "lib:six.text_type"},
+             modifies=["dicts", "lists", "G_jsf_n", "G_jsf_for", "self.current_scenario", "self._step_index"],
+             loops=[Loop(modifies=["dicts", "lists", "self._step_index"],
+                         invariant={"cursor": "G_jsf_n == old(G_jsf_n) + 1 and G_jsf_for == old(self.current_scenario)"})] if _fn == "background" else [],
+             ensures={"the-status-of-the-preceding-scenario-is-stored-before-the-cursor-moves":
+                      "G_jsf_n == old(G_jsf_n) + 1 and G_jsf_for == old(self.current_scenario)",
+                      "the-cursor-moves": "self.current_scenario is %s" % _cur if _cur != "None" else "is_none(self.current_scenario)"},
+             doc="a scenario's element gets its status when the next scenario or a (rule) background starts")
+
 contract("abs:JSONFormatter.update_status_data", trusted=True, params={"self": "ref:JSONFormatter"}, pos_params=["self"],
          modifies=["dicts"], doc="stores the feature status (content: bounded)")
 contract(JS + "JSONFormatter.reset", inline=True)
@@ -62,7 +90,7 @@ contract(JS + "JSONFormatter.close", props=P, params={"self": "ref:JSONFormatter
                   "implies(self.feature_count == 0, G_js_n == %s + 2 and G_js_tok(%s) == 'header' and G_js_tok(%s + 1) == 'footer')" % (N0, N0, N0),
                   "otherwise-only-the-footer": "implies(self.feature_count != 0, G_js_n == %s + 1 and G_js_tok(%s) == 'footer')" % (N0, N0)})
 contract(JS + "JSONFormatter.eof", props=P, params={"self": "ref:JSONFormatter"}, self_classes=["JSONFormatter"],
-         modifies=["G_js_n", "G_js_tok", "self.feature_count", "self.current_feature", "self.current_feature_data",
+         modifies=["G_js_n", "G_js_tok", "G_jsf_n", "G_jsf_for", "self.feature_count", "self.current_feature", "self.current_feature_data",
                    "self.current_scenario", "self._step_index", "dicts", "lists"],
          ensures={"nothing-written-without-feature-data":
                   "implies(not old(truthy(self.current_feature_data)), G_js_n == %s and self.feature_count == old(self.feature_count))" % N0,
